@@ -486,25 +486,36 @@ GAS_CFGS_FULL = GAS_CFGS_QUICK + [
     ("lp-linap", {"linear_gas_solver": False, "linear_ap_change_solver": True})]
 
 
+# quick tiers leave out the families another property's quick tier already analyses
+CORE_FAMS = ["arith", "cast", "felt", "bool", "wide", "bounded", "plumb", "gas", "hash", "spec"]
+
+
+def fams_for(args, quick):
+    if args.families or args.tier == "thorough":
+        return None  # everything (or the explicit selection)
+    return quick
+
+
 def run_c03(args):
     return generic(args, "C03", workers.c03_worker, [("default", {})], confirm_c03,
-                   corpus_ok=True)
+                   corpus_ok=True, families=fams_for(args, CORE_FAMS + ["corpus"]))
 
 
 def run_c02(args):
     return generic(args, "C02", workers.c02_worker, [("default", {})], confirm_c02,
-                   corpus_ok=True)
+                   corpus_ok=True, families=fams_for(args, CORE_FAMS + ["corpus"]))
 
 
 def run_c04(args):
     cfgs = GAS_CFGS_FULL if args.tier == "thorough" else GAS_CFGS_QUICK
-    return generic(args, "C04", workers.c04_worker, cfgs, confirm_c04, corpus_ok=True)
+    return generic(args, "C04", workers.c04_worker, cfgs, confirm_c04, corpus_ok=True,
+                   families=fams_for(args, CORE_FAMS + ["corpus"]))
 
 
 def run_c17(args):
     cfgs = GAS_CFGS_FULL if args.tier == "thorough" else GAS_CFGS_QUICK
     return generic(args, "C17", workers.c17_worker, cfgs, confirm_c17, static_leg=static_ranges,
-                   corpus_ok=True)
+                   corpus_ok=True, families=fams_for(args, CORE_FAMS + ["corpus"]))
 
 
 def run_c01(args):
@@ -641,7 +652,7 @@ def run_c05(args):
 
 def run_c06(args):
     return generic(args, "C06", workers.c06_worker, [("default", {})], confirm_c06,
-                   extra_task=lambda fam, e: (fam, 0))
+                   extra_task=lambda fam, e: (fam, 0), families=fams_for(args, CORE_FAMS))
 
 
 def main():
